@@ -146,6 +146,7 @@ func (m *Machine) RunCase(fnName string, s *Solver, opts Options) CaseResult {
 		hashCalls = nil
 		rwHeld = map[*value]string{}
 		syncMaps = map[*value][]syncMapEntry{}
+		mapOrder = map[uintptr][]value{}
 		if i.globals == nil {
 			i.globals = make(map[*ssa.Global]*value)
 			for _, p := range i.prog.AllPackages() {
